@@ -363,6 +363,95 @@ def record_wallets(run: Run, rnd: random.Random, thorough: bool, evs: list[dict[
     return stats
 
 
+LEDGER_CFG = ("SPECIFICATION Spec\nCONSTANTS Branches = {{0, 1}}\nMaxIndex = {mx}\nINVARIANT TypeOK\nINVARIANT FreshNext\nINVARIANT CursorPast\nINVARIANT NoDuplicates\n"
+              "PROPERTY AppendOnly\nPROPERTY CursorMonotone\nCHECK_DEADLOCK FALSE\n")
+
+
+def wallet_ledger(run: Run, rnd: random.Random, thorough: bool) -> None:
+    """M: the ledger of a ranged wallet (spec/WalletCalls.tla) model-checked over every history of hand-outs on two branches; V: random histories of calls on real
+    wallets of the three kinds (address, next_address, len, addresses, `in`, address_info, position_of) validated line by line against it (spec/WalletTrace.tla)."""
+    import json
+    import pathlib
+    import tempfile
+
+    from btclib.bip32 import bip32
+    from btclib.descriptors import descriptors as D
+    from btclib.wallet.descriptor_wallet import DescriptorWallet
+    from btclib.wallet.key_wallet import BIP32KeyWallet
+    from btclib.wallet.script_wallet import KeyGroup, ScriptWallet
+
+    res = tlc.run("WalletCallsModel", cfg_text=LEDGER_CFG.format(mx=3 if thorough else 2), workers=8, timeout=1500)
+    for v in res.violations:
+        raise tlc.TLCFailure(f"WalletCallsModel violates {v.name}:\n{v.text[:600]}")
+    run.tlc(res, "M WalletCallsModel")
+    probe = tlc.run("WalletCallsModel", cfg_text=LEDGER_CFG.format(mx=2).split("INVARIANT")[0] + "INVARIANT NeverFull\nCHECK_DEADLOCK FALSE\n", workers=4, timeout=600, check=False)
+    if not probe.violations:
+        raise tlc.TLCFailure("WalletCallsModel: the vacuity probe NeverFull was not violated (the ledger never fills)")
+    root = bip32.rootxprv_from_seed(bytes(range(32, 64)))
+    xpub = bip32.xpub_from_xprv(bip32.derive(root, "m/84h/0h/0h"))
+    x2 = bip32.xpub_from_xprv(bip32.derive(root, "m/48h/0h/0h/2h"))
+    makers = {
+        "BIP32KeyWallet": (lambda: BIP32KeyWallet(root, "m/84h/0h/0h"), [0, 1]),
+        "ScriptWallet": (lambda: ScriptWallet([KeyGroup(1, [xpub, x2])], "p2wsh", "derived", None, "mainnet"), [0, 1]),
+        "DescriptorWallet": (lambda: DescriptorWallet({lab: D.parse(f"wpkh({xpub}/{lab}/*)", "mainnet") for lab in (0, 1, 7)}), [0, 1, 7]),
+    }
+    lines: list[dict[str, Any]] = []
+    where: list[str] = []
+    for kind, (make, branches) in makers.items():
+        for h in range(12 if thorough else 4):
+            w, twin = make(), make()          # the twin computes addresses and scripts without touching the ledger under test
+            lines.append({"ev": "open", "branches": branches})
+            where.append(f"{kind} history {h}: open")
+            for step in range(40 if thorough else 22):
+                b = rnd.choice(branches)
+                i = rnd.choice([0, 0, 1, 2, 3, 5, 9])
+                op = rnd.choice(["address", "address", "next", "next", "observe", "contains", "position_of", "position_of"])
+                try:
+                    if op == "address":
+                        a = w.address(b, i)
+                        info = w.address_info(a)
+                        lines.append({"ev": "address", "b": b, "i": i, "pos": [info.branch, info.index]})
+                    elif op == "next":
+                        a = w.next_address(b)
+                        info = w.address_info(a)
+                        lines.append({"ev": "next", "b": b, "pos": [info.branch, info.index]})
+                    elif op == "observe":
+                        order = [[w.address_info(a).branch, w.address_info(a).index] for a in w.addresses]
+                        lines.append({"ev": "observe", "count": len(w), "order": order})
+                    elif op == "contains":
+                        lines.append({"ev": "contains", "b": b, "i": i, "out": twin.script_pub_key(b, i).address in w})
+                    else:
+                        bound = rnd.choice([0, 1, 2, 4, 9])
+                        got = w.position_of(twin.script_pub_key(b, i), bound)
+                        lines.append({"ev": "position_of", "b": b, "i": i, "bound": bound, "out": [] if got is None else list(got)})
+                except Exception as e:  # noqa: BLE001
+                    run.violation(f"wallet|ledger|{kind}|{op}|raised|{type(e).__name__}", f"{kind}.{op}({b}, {i}) raised {type(e).__name__}: {e} in a history of valid calls", {"kind": kind, "op": op})
+                    continue
+                where.append(f"{kind} history {h} step {step}: {op}")
+    with tempfile.TemporaryDirectory(prefix="mbv-wal-") as d:
+        f = pathlib.Path(d) / "trace.ndjson"
+        f.write_text("".join(json.dumps(e) + "\n" for e in lines))
+        cfg = "SPECIFICATION TSpec\nINVARIANT Consumed\nINVARIANT Report\nCHECK_DEADLOCK TRUE\n"
+        tr = tlc.run("WalletTrace", cfg_text=cfg, workers=1, env={"TRACE_FILE": str(f)}, heap="4g")
+    run.tlc(tr, "V WalletTrace")
+    if tr.violations:
+        v = tr.violations[0]
+        raise tlc.TLCFailure(f"WalletTrace: the trace was not consumed ({v.kind}): {v.text[-800:]}")
+    rejected = None
+    for val in tr.printed_values():
+        if isinstance(val, list) and val and val[0] == "REJECTED":
+            rejected = sorted(val[1])
+    if rejected is None:
+        raise tlc.TLCFailure("WalletTrace: no final report")
+    for ln in rejected:
+        e = lines[ln - 1]
+        run.violation(f"wallet|ledger|{where[ln - 1].split(' ')[0]}|{e['ev']}", f"{where[ln - 1]}: the wallet answered {e}; the ledger specification does not explain it",
+                      {"machine": "WalletTrace", "line": ln, "history": lines[max(0, ln - 25):ln]})
+    run.section("wallet_ledger", {"lines": len(lines), "histories": sum(1 for e in lines if e["ev"] == "open"), "by_event": {k: sum(1 for e in lines if e["ev"] == k) for k in ("address", "next", "observe", "contains", "position_of")}})
+    run.count(evaluations=len(lines), validated=len(lines), nontrivial=sum(1 for e in lines if e["ev"] in ("next", "observe")))
+
+
+
 def check(run: Run) -> None:
     thorough = run.tier == "thorough"
     rnd = random.Random(run.seed)
@@ -376,6 +465,7 @@ def check(run: Run) -> None:
     evs: list[dict[str, Any]] = []
     s1 = record_descriptors(run, rnd, thorough, evs)
     s2 = record_wallets(run, rnd, thorough, evs)
+    wallet_ledger(run, random.Random(run.seed + 5), thorough)
     keep = ("op", "ast", "index", "net", "out", "addrs", "redeem", "witness", "text_", "accepted", "intact", "a", "b")
     compact = []
     for e in evs:
